@@ -307,6 +307,31 @@ async fn run_case(cx: &Ctx<'_>, seed: u64, idx: u64, thorough: bool, selftest: b
             }
             let op = h.gen_op(&mut rng, PRE);
             let out = h.apply(&mut rng, &op).await;
+        if let Some((kind, empty)) = h.stable_flag_lost {
+            // the table silently stopped using stable row ids: everything the property says about
+            // row ids is void from here on; one class, reported once per case
+            if !selftest {
+                cx.report.violation(
+                    &format!("stable-row-id-flag-dropped-by-{kind}{}", if empty { "-on-empty-table" } else { "" }),
+                    "a table created with stable row ids lost the feature flag: rows written from now on get address-style row ids that change on update / compaction",
+                    json!({"seed": seed, "case": idx, "history": h.log_json()}),
+                );
+                cx.report.case(None);
+            }
+            return (applied_c, detected_c);
+        }
+            if std::env::var("C13_DEBUG").is_ok() {
+                if let Ok(o) = observe(&h.ds, stable).await {
+                    println!(
+                        "DEBUG after {} (next_row_id {} uses_stable_row_ids {} fragments {}): {:?}",
+                        op.brief().chars().take(60).collect::<String>(),
+                        h.ds.manifest().next_row_id,
+                        h.ds.manifest().uses_stable_row_ids(),
+                        h.ds.count_fragments(),
+                        o.rows.iter().map(|r| (r.id & 0xffff, r.rowid, r.rowaddr)).collect::<Vec<_>>()
+                    );
+                }
+            }
             cx.ops.add(op.kind(), 1);
             match out {
                 Outcome::Rejected(f) => {
@@ -380,7 +405,9 @@ async fn run_case(cx: &Ctx<'_>, seed: u64, idx: u64, thorough: bool, selftest: b
         let frags_after: Vec<u64> = h.ds.get_fragments().iter().map(|f| f.id() as u64).collect();
         // rows removed by the concurrent delete are expected to be gone
         let mut before = before;
-        if let Some(p) = &spec.interleaved_delete {
+        // (only if that delete was really committed: a task that fails to execute ends the
+        // compaction before the other writer gets its turn)
+        if let (Some(p), true) = (&spec.interleaved_delete, h.interleaved_delete_done) {
             use vmon::table::Cell;
             before.obs.rows.retain(|r| !p.eval(r.id, &Cell::Null));
             before.count = before.obs.rows.len();
@@ -466,7 +493,7 @@ async fn run_case(cx: &Ctx<'_>, seed: u64, idx: u64, thorough: bool, selftest: b
                 let sig = format!(
                     "{base}{}{}",
                     config_tag(stable, spec.defer_index_remap, fri_present),
-                    match (&spec.interleaved_delete, h.second_commit_round_accepted) {
+                    match (spec.interleaved_delete.as_ref().filter(|_| h.interleaved_delete_done), h.second_commit_round_accepted) {
                         (Some(_), true) => "+concurrent-delete+second-commit-round",
                         (Some(_), false) => "+concurrent-delete",
                         // a second commit round without a concurrent writer is not a class of
@@ -527,7 +554,7 @@ pub fn run(args: &Args) -> i32 {
          CompactionOptions through compact_files or plan/execute/commit of random task subsets in random order; snapshot \
          before vs after: rows by id, count_rows, (stable) id->(_rowid, created, updated), 11 indexed queries. \
          Non-trivial = the compaction replaced fragments of a non-empty table; distinct by (config, options, layout).",
-        (60, 900),
+        (85, 900),
     )
     .with_min_nontrivial(args.tier.pick(25, 250));
     let ops = Histo::default();
@@ -541,7 +568,7 @@ pub fn run(args: &Args) -> i32 {
     };
     let selftest = selftest_requested(args);
     let thorough = args.tier == vmon::report::Tier::Thorough;
-    let max_cases = if selftest { 60 } else { args.tier.pick(1_500, 40_000) };
+    let max_cases = if selftest { 60 } else { args.tier.pick(250, 40_000) };
     let st = std::sync::Mutex::new((0u64, 0u64));
     if let Some(i) = args.extra.get("case").and_then(|s| s.parse::<u64>().ok()) {
         let rt = tokio::runtime::Builder::new_current_thread().enable_all().build().unwrap();
